@@ -31,7 +31,7 @@ type C09Case struct {
 
 var c09Kinds = []string{"flip-seal", "flip-last-block", "flip-last-key", "flip-last-sig", "seal-from-donor", "seal-to-random-secret",
 	"seal-by-attacker", "seal-over-without-signature", "drop-last-block", "swap-last-two", "append-attacker-block",
-	"seal-to-64-byte-secret-with-public-key"}
+	"seal-to-64-byte-secret-with-public-key", "seal-extended", "seal-shortened", "seal-doubled"}
 
 func sealMutation(c C09Case, sealed, donor *wire.Biscuit) *wire.Biscuit {
 	env := sealed.Clone()
@@ -55,6 +55,17 @@ func sealMutation(c C09Case, sealed, donor *wire.Biscuit) *wire.Biscuit {
 	case "seal-to-64-byte-secret-with-public-key":
 		// "unsealing" without any private key: 32 arbitrary bytes followed by the last announced key
 		env.Proof = wire.Proof{HasSecret: true, Secret: append(append([]byte{}, aseed...), last.NextKey...)}
+	case "seal-extended":
+		// the genuine 64 bytes followed by 1-3 more: an altered seal signature
+		for i := uint64(0); i <= c.Mut.N%3; i++ {
+			env.Proof.Final = append(env.Proof.Final, byte(c.Mut.Bit+int(i)))
+		}
+	case "seal-shortened":
+		if len(env.Proof.Final) > 0 {
+			env.Proof.Final = env.Proof.Final[:len(env.Proof.Final)-1-int(c.Mut.N%3)]
+		}
+	case "seal-doubled":
+		env.Proof.Final = append(append([]byte{}, env.Proof.Final...), env.Proof.Final...)
 	case "seal-by-attacker":
 		env.Proof = wire.Proof{HasFinal: true, Final: sealSignature(apriv, *last)}
 	case "seal-over-without-signature":
@@ -136,6 +147,17 @@ func checkC09(c C09Case, rec *obs.Recorder) *obs.Violation {
 		return obs.Violf("cannot build: %v", err)
 	}
 	desc := m.Token{Blocks: spec.Blocks}.Text()
+	if spec.RngKey%2 == 1 {
+		// the holder who seals usually received the token as bytes
+		ser, err := T.Serialize()
+		if err != nil {
+			return obs.Violf("token %s: serialize: %v", desc, err)
+		}
+		if T, err = bridge.UnmarshalBase(ser, spec.Base); err != nil {
+			return obs.Violf("token %s: unmarshal: %v", desc, err)
+		}
+		desc += " (received as bytes before sealing)"
+	}
 	S, err := T.Seal(bridge.NewDetRand(spec.RngKey + 5))
 	if err != nil || S == nil {
 		return obs.Violf("token %s: Seal failed: %v", desc, err)
@@ -292,7 +314,7 @@ func drawC09(t *rapid.T) C09Case {
 func TestC09(t *testing.T) {
 	rec := obs.New("C09")
 	defer rec.Flush(true)
-	rec.SetExtra("rule", "rapid: goal-directed token (authority + 0-3 later blocks; with or without a root key id, 0 included; sometimes composed over a custom base symbol table) T, S = T.Seal(), a panel of 4 generated authorizers and 2 queries, reload of S, and one of 12 sealed-envelope mutations (seal replaced by a 64-byte secret whose second half is the announced key, seal signature bits, last block / announced key / signature bits, seal from another sealed token of the same or another issuer, seal replaced by a secret, attacker seal, seal computed without the last signature, last block dropped, last two swapped, attacker block appended). Oracle: S verifies under the same root; outcome class and query results of S and of reloaded S equal those of T for every panel member; revocation ids equal; Append and Seal on S and on reloaded S return an error and no token; the mutated envelope is rejected, in agreement with the reference chain walk. Non-trivial = T has >= 1 later block and the panel has both an allowed and a refused member; distinct by (token, panel, mutation).")
+	rec.SetExtra("rule", "rapid: goal-directed token (authority + 0-3 later blocks; with or without a root key id, 0 included; sometimes composed over a custom base symbol table; in half of the cases received as bytes before sealing) T, S = T.Seal(), a panel of 4 generated authorizers and 2 queries, reload of S, and one of 15 sealed-envelope mutations (seal signature extended by 1-3 bytes / shortened / written twice,seal replaced by a 64-byte secret whose second half is the announced key, seal signature bits, last block / announced key / signature bits, seal from another sealed token of the same or another issuer, seal replaced by a secret, attacker seal, seal computed without the last signature, last block dropped, last two swapped, attacker block appended). Oracle: S verifies under the same root; outcome class and query results of S and of reloaded S equal those of T for every panel member; revocation ids equal; Append and Seal on S and on reloaded S return an error and no token; the mutated envelope is rejected, in agreement with the reference chain walk. Non-trivial = T has >= 1 later block and the panel has both an allowed and a refused member; distinct by (token, panel, mutation).")
 	rec.SetExtra("assumptions", []string{"crypto/ed25519 trusted", "equality between sealed and unsealed twins is asserted on every generated case, whatever its verdict"})
 	harness.RunWith(t, harness.Spec[C09Case]{ID: "C09", Draw: drawC09, Check: checkC09}, rec)
 }
